@@ -375,6 +375,16 @@ func (in *Interp) eval(e gen.Expr) Value {
 		d := in.ref(n.M, ks)
 		in.Trace["metric-read"]++
 		return d.V
+	case *gen.IncExpr:
+		ks := in.keyStrings(n.Keys)
+		d := in.ref(n.M, ks)
+		nv := Value{T: gen.TInt, I: d.V.I + 1}
+		if n.Op == "--" {
+			nv.I = d.V.I - 1
+		}
+		in.write(d, nv)
+		in.Trace["inc-expr"]++
+		return nv
 	case *gen.BitNot:
 		v := in.eval(n.E)
 		return Value{T: gen.TInt, I: ^v.I}
